@@ -1501,7 +1501,19 @@ def ser_state(chk, program):
     for w in [n for n in g.nodes if n.kind == 'test' and isinstance(n.ast, ast.While)]:
         for n in g.nodes:
             if n.kind == 'stmt' and isinstance(n.ast, (ast.Break, ast.Return)) and _contains_node(w.ast, n.ast):
-                preds = [p for p, l in g.pred[n.id] if g.nodes[p].kind == 'test']
+                # controlling tests: walk back over straight-line statements to the nearest test nodes
+                preds = []
+                seenp = set(); stackp = [n.id]
+                while stackp:
+                    u = stackp.pop()
+                    for p, l in g.pred[u]:
+                        if p in seenp:
+                            continue
+                        seenp.add(p)
+                        if g.nodes[p].kind == 'test':
+                            preds.append(p)
+                        elif g.nodes[p].kind == 'stmt':
+                            stackp.append(p)
                 startvar = f['finds'][0][1] if f['finds'] else None
                 okb = all(_test_mentions_only_start_len(g.nodes[p].ast.test, startvar, buf) for p in preds) and bool(preds)
                 chk.check(okb, 'SER-STATE', f"{q}::loop-exit::{stmt_key(g.nodes[preds[0]].ast.test) if preds else 'unconditional'}", file=IO, line=n.line, func=q,
